@@ -22,6 +22,7 @@ const (
 	tA     = 1
 	tNS    = 2
 	tCNAME = 5
+	tDS    = 43
 	tSOA   = 6
 	tMX    = 15
 	tAAAA  = 28
@@ -123,24 +124,37 @@ func firstLabel(name string) string {
 func (ix *Index) Resolve(qname string, qtype uint16, loc string) *Expected {
 	e := &Expected{}
 	// zone cut: nearest ancestor-or-self with a visible NS
-	cut, found, auth := qname, false, false
-	for {
-		for _, r := range ix.Visible(cut, false, loc) {
-			if r.Type == tNS {
-				found = true
+	findCut := func(from string) (cut string, found, auth bool) {
+		cut = from
+		for {
+			for _, r := range ix.Visible(cut, false, loc) {
+				if r.Type == tNS {
+					found = true
+				}
+				if r.Type == tSOA {
+					auth = true
+				}
 			}
-			if r.Type == tSOA {
-				auth = true
+			if found {
+				return
 			}
+			p, ok := parent(cut)
+			if !ok {
+				return
+			}
+			cut = p
 		}
-		if found {
-			break
+	}
+	cut, found, auth := findCut(qname)
+	if found && !auth && qtype == tDS && qname != "" {
+		// the DS RRset of a delegation lives in the parent zone: the authority decision is taken again one label up
+		// (a DS query AT a delegation point is answered from the parent side; strictly below it stays a referral)
+		p, _ := parent(qname)
+		cut, found, auth = findCut(p)
+		if !found {
+			e.Class = "unspecified" // a delegation whose parent is in no declared zone: nothing is prescribed
+			return e
 		}
-		p, ok := parent(cut)
-		if !ok {
-			break
-		}
-		cut = p
 	}
 	if !found {
 		e.Class, e.Rcode = "refused", 5
